@@ -11,6 +11,8 @@ import (
 	"sync"
 	"unicode/utf8"
 
+	gregexp "github.com/grafana/regexp"
+
 	"github.com/sourcegraph/zoekt"
 	"github.com/sourcegraph/zoekt/index"
 	"github.com/sourcegraph/zoekt/internal/verifshim/gen"
@@ -368,3 +370,7 @@ func sortedInts(m map[int]bool) []int {
 	sort.Ints(out)
 	return out
 }
+
+type regexpT = gregexp.Regexp
+
+func regexpMust(s string) *regexpT { return gregexp.MustCompile(s) }
